@@ -151,7 +151,7 @@ impl MCmd {
             GetDel(a) => format!("(GetDel {})", k(a)),
             Incr(a) => format!("(Incr {})", k(a)), Decr(a) => format!("(Decr {})", k(a)),
             IncrBy(a, z) => format!("(IncrBy {} {})", k(a), cz(*z)), DecrBy(a, z) => format!("(DecrBy {} {})", k(a), cz(*z)),
-            Del(l) => format!("(Del {})", ks(l)), Exists(l) => format!("(Exists {})", ks(l)),
+            Del(l) => format!("(Del {})", ks(l)), Exists(l) => format!("(ExistsC {})", ks(l)),
             TypeOf(a) => format!("(TypeOf {})", k(a)), Keys => "Keys".into(),
             Rename(a, b) => format!("(Rename {} {})", k(a), k(b)), RenameNx(a, b) => format!("(RenameNx {} {})", k(a), k(b)),
             DbSize => "DbSize".into(), FlushDb => "FlushDb".into(), FlushAll => "FlushAll".into(),
@@ -461,12 +461,10 @@ impl<'a> Gen<'a> {
             13..=14 => { let n = self.rng.gen_range(1..=3); MSet((0..n).map(|_| (self.key(&st), self.val())).collect()) }
             15 => { let n = self.rng.gen_range(1..=3); MSetNx((0..n).map(|_| (self.key(&any), self.val())).collect()) }
             16..=17 => GetRange(self.key(&st), self.index(), self.index()),
-            18 => { let off = self.pick(&[0u64, 0, 1, 2, 3, 5, 9, 536870911, 536870912, 536870913, u64::MAX / 4]);
-                    let v = if off > 100 && self.chance(0.7) { self.pick(&[b"x".to_vec(), b"".to_vec(), b"xy".to_vec()]) } else { self.val() };
-                    // keep valid results small: a huge offset is only paired with values that make the total exceed 512 MiB or with ""
-                    let v = if off > 100 && off + (v.len() as u64) <= 536870912 && !v.is_empty() { b"xy".to_vec() } else { v };
-                    let off = if off > 100 && off + (v.len() as u64) <= 536870912 && !v.is_empty() { 536870912 } else { off };
-                    SetRange(self.key(&st), off, v) }
+            18 => { // a huge offset is only paired with a non-empty value that makes the total exceed 512 MiB (nothing that large is ever built)
+                    if self.chance(0.2) { let (off, v) = self.pick(&[(536870911u64, b"xy".to_vec()), (536870912, b"x".to_vec()), (536870913, b"x".to_vec()), (u64::MAX / 4, b"xy".to_vec())]);
+                                          SetRange(self.key(&st), off, v) }
+                    else { let off = self.pick(&[0u64, 0, 1, 2, 3, 5, 9]); SetRange(self.key(&st), off, self.val()) } }
             19..=20 => GetEx(self.key(&st), self.xopt(false)),
             21 => GetDel(self.key(&st)),
             22 => Incr(self.key(&st)), 23 => Decr(self.key(&st)),
@@ -525,4 +523,135 @@ pub fn family(c: &MCmd) -> &'static str {
         HSet(..) | HGet(..) | HDel(..) | HGetAll(..) | HKeys(..) | HVals(..) | HLen(..) | HExists(..) | HIncrBy(..) => "hash",
         _ => "zset",
     }
+}
+
+// ------------------------------------------------------------------ direct Redis laws
+// Small laws of Redis evaluated directly on what the implementation did in one step
+// (command, reply, visible keyspace before/after, clock).  They cover the commands in which the
+// implementation was seen to deviate, so that a deviation is reported with a concrete failing
+// input by the harness itself (the Coq model covers everything, but its verdict is only a list of
+// disagreeing case numbers).
+
+/// util.c string2ll
+pub fn string2ll(b: &[u8]) -> Option<i64> {
+    if b.is_empty() || b.len() >= 21 { return None; }
+    if b == b"0" { return Some(0); }
+    let (neg, d) = if b[0] == b'-' { (true, &b[1..]) } else { (false, b) };
+    if d.is_empty() || !(b'1'..=b'9').contains(&d[0]) || !d.iter().all(|c| c.is_ascii_digit()) { return None; }
+    let mut v: i128 = 0;
+    for c in d { v = v * 10 + (*c - b'0') as i128; }
+    let v = if neg { -v } else { v };
+    if v < i64::MIN as i128 || v > i64::MAX as i128 { None } else { Some(v as i64) }
+}
+
+pub fn find<'s>(s: &'s Snapshot, k: &str) -> Option<&'s (String, Dump, i64)> { s.iter().find(|e| e.0 == k) }
+
+/// t_string.c getrangeCommand
+pub fn redis_getrange(b: &[u8], start: i64, end: i64) -> Vec<u8> {
+    let len = b.len() as i128; let (mut s, mut e) = (start as i128, end as i128);
+    if s < 0 && e < 0 && s > e { return vec![]; }
+    if s < 0 { s += len; } if e < 0 { e += len; }
+    if s < 0 { s = 0; } if e < 0 { e = 0; }
+    if e >= len { e = len - 1; }
+    if s > e || len == 0 { return vec![]; }
+    b[s as usize..=e as usize].to_vec()
+}
+
+pub struct Finding { pub class: &'static str, pub what: String, pub known: Option<&'static str> }
+fn f(class: &'static str, what: String) -> Finding { Finding { class, what, known: None } }
+
+/// expected (reply, remaining pttl after: None = key gone, Some(-1) = no ttl) of the EXPIRE family
+fn expire_expect(now: u64, when: i128, flags: (bool, bool, bool, bool), before: Option<i64>) -> (i64, Option<i64>) {
+    let (nx, xx, gt, lt) = flags;
+    let p = match before { None => return (0, None), Some(p) => p };
+    let cur: Option<i128> = if p >= 0 { Some(now as i128 + p as i128) } else { None };
+    if nx && cur.is_some() { return (0, Some(p)); }
+    if xx && cur.is_none() { return (0, Some(p)); }
+    if gt && cur.map_or(true, |c| when <= c) { return (0, Some(p)); }
+    if lt && cur.map_or(false, |c| when >= c) { return (0, Some(p)); }
+    if when <= now as i128 { (1, None) } else { (1, Some((when - now as i128) as i64)) }
+}
+
+pub fn laws(c: &MCmd, r: &RespValue, before: &Snapshot, after: &Snapshot, now: u64) -> Vec<Finding> {
+    use MCmd::*;
+    let mut out = Vec::new();
+    let kind = match r { RespValue::Error(t) => Some(err_kind(t)), _ => None };
+    // an empty collection is never visible
+    for (k, d, _) in after {
+        let empty = match d { Dump::L(v) => v.is_empty(), Dump::T(v) => v.is_empty(), Dump::H(v) => v.is_empty(), Dump::Z(v) => v.is_empty(), _ => false };
+        if empty && find(before, k).map(|e| &e.1) != Some(d) { out.push(f("empty-collection-visible", format!("after {} the key {:?} exists (TYPE says so) but holds an empty collection", c.name(), k))); }
+        if let Dump::X(t) = d { out.push(f("inconsistent-probes", format!("after {} the key {:?} cannot be read back consistently: {}", c.name(), k, t))); }
+    }
+    // an error reply changes nothing
+    if kind.is_some() && before != after {
+        out.push(f("error-changed-keyspace", format!("{} replied an error ({:?}) but the visible keyspace changed", c.name(), r)));
+    }
+    let pttl_before = |k: &String| find(before, k).map(|e| e.2);
+    let pttl_after = |k: &String| find(after, k).map(|e| e.2);
+    let str_before = |k: &String| match find(before, k) { Some((_, Dump::S(b), _)) => Some(b.clone()), _ => None };
+    let nonstr_before = |k: &String| matches!(find(before, k), Some((_, d, _)) if !matches!(d, Dump::S(_)));
+    match c {
+        Ttl(k) => if let Some(p) = pttl_before(k) { if p >= 0 {
+            let want = (p as i128 + 500) / 1000;
+            if *r != RespValue::Integer(want as i64) { out.push(f("ttl-rounding", format!("TTL of a key with {} ms left replied {:?}; Redis rounds to the nearest second: {}", p, r, want))); } } }
+        ExpireTime(k) => if let Some(p) = pttl_before(k) { if p >= 0 {
+            let want = (now as i128 + p as i128 + 500) / 1000;
+            if *r != RespValue::Integer(want as i64) { out.push(f("expiretime-rounding", format!("EXPIRETIME of a key with deadline {} ms replied {:?}; Redis: (deadline+500)/1000 = {}", now as i128 + p as i128, r, want))); } } }
+        GetSet(k, _) => if kind.is_none() && pttl_after(k) != Some(-1) {
+            out.push(f("getset-keeps-ttl", format!("GETSET left a TTL on the key (PTTL {:?}); Redis discards it", pttl_after(k)))); }
+        MSet(kvs) => for (k, _) in kvs { if pttl_after(k) != Some(-1) {
+            out.push(f("mset-keeps-ttl", format!("MSET left a TTL on key {:?} (PTTL {:?}); Redis discards it", k, pttl_after(k)))); break; } }
+        MSetNx(kvs) => if *r == RespValue::Integer(1) { for (k, _) in kvs { if pttl_after(k) != Some(-1) {
+            out.push(f("mset-keeps-ttl", format!("MSETNX left a TTL on key {:?} (PTTL {:?})", k, pttl_after(k)))); break; } } }
+        Incr(k) | Decr(k) | IncrBy(k, _) | DecrBy(k, _) => {
+            let inc: Option<i128> = match c { Incr(_) => Some(1), Decr(_) => Some(-1), IncrBy(_, z) => Some(*z as i128),
+                DecrBy(_, z) => if *z == i64::MIN { None } else { Some(-(*z as i128)) }, _ => None };
+            match inc {
+                None => if kind != Some("EOverflow") { out.push(f("decrby-min-error", format!("DECRBY {} replied {:?}; Redis: ERR decrement would overflow", i64::MIN, r))); }
+                Some(inc) => {
+                    let cur: Option<Option<i128>> = if nonstr_before(k) { None } else { match str_before(k) { None => Some(Some(0)), Some(b) => Some(string2ll(&b).map(|x| x as i128)) } };
+                    match cur {
+                        None => if kind != Some("EWrongType") { out.push(f("incr-wrongtype", format!("{} on a non-string replied {:?}", c.name(), r))); }
+                        Some(None) => if kind != Some("ENotInteger") {
+                            out.push(f("incr-lenient-parse", format!("{} on the string {:?} replied {:?}; Redis (string2ll) refuses it: ERR value is not an integer or out of range",
+                                c.name(), String::from_utf8_lossy(&str_before(k).unwrap()), r))); }
+                        Some(Some(cur)) => {
+                            let n = cur + inc;
+                            if n < i64::MIN as i128 || n > i64::MAX as i128 {
+                                if kind != Some("EOverflow") { out.push(f("incr-overflow", format!("{} from {} by {} must overflow but replied {:?}", c.name(), cur, inc, r))); }
+                            } else if *r != RespValue::Integer(n as i64) || !matches!(find(after, k), Some((_, Dump::S(b), _)) if b == n.to_string().as_bytes()) {
+                                out.push(f("incr-result", format!("{} from {} by {}: reply {:?}, stored {:?}; expected {}", c.name(), cur, inc, r, find(after, k).map(|e| &e.1), n)));
+                            }
+                        }
+                    }
+                }
+            }
+        }
+        GetRange(k, a, b) => if let Some(s) = str_before(k) {
+            let want = redis_getrange(&s, *a, *b);
+            if *r != RespValue::BulkString(Some(want.clone())) { out.push(f("getrange", format!("GETRANGE {:?} {} {} replied {:?}; Redis: {:?}", String::from_utf8_lossy(&s), a, b, r, String::from_utf8_lossy(&want)))); } }
+        SetRange(k, _, v) => if v.is_empty() && !nonstr_before(k) {
+            let want = str_before(k).map_or(0, |s| s.len() as i64);
+            if *r != RespValue::Integer(want) || before != after { out.push(f("setrange-empty-value", format!("SETRANGE with an empty value replied {:?} / changed the keyspace; Redis replies the current length {} and changes nothing", r, want))); } }
+        Expire(k, _, ..) | PExpire(k, _, ..) | ExpireAt(k, _) | PExpireAt(k, _) => {
+            let (when, flags, err): (i128, (bool, bool, bool, bool), bool) = match c {
+                Expire(_, s, nx, xx, gt, lt) => { let s = *s as i128; let e = s > (i64::MAX / 1000) as i128 || s < (i64::MIN / 1000) as i128 || s * 1000 > i64::MAX as i128 - now as i128; (s * 1000 + now as i128, (*nx, *xx, *gt, *lt), e) }
+                PExpire(_, m, nx, xx, gt, lt) => { let m = *m as i128; (m + now as i128, (*nx, *xx, *gt, *lt), m > i64::MAX as i128 - now as i128) }
+                ExpireAt(_, t) => { let t = *t as i128; (t * 1000, (false, false, false, false), t > (i64::MAX / 1000) as i128 || t < (i64::MIN / 1000) as i128) }
+                PExpireAt(_, t) => (*t as i128, (false, false, false, false), false),
+                _ => unreachable!(),
+            };
+            if err { if kind != Some("EInvalidExpire") { out.push(f("expire-overflow-accepted", format!("{} with an overflowing time replied {:?}; Redis: ERR invalid expire time", c.name(), r))); } }
+            else {
+                let (wr, wp) = expire_expect(now, when, flags, pttl_before(k));
+                if *r != RespValue::Integer(wr) || pttl_after(k) != wp {
+                    out.push(f("expire-semantics", format!("{} {:?} (deadline {} at clock {}, flags nx/xx/gt/lt {:?}) on a key with PTTL {:?}: reply {:?}, PTTL after {:?}; Redis: reply {}, PTTL after {:?}",
+                        c.name(), k, when, now, flags, pttl_before(k), r, pttl_after(k), wr, wp))); }
+            }
+        }
+        RPopLPush(a, b) | LMove(a, b, _, _) => if a == b && kind.is_none() && pttl_before(a) != pttl_after(a) && find(before, a).is_some() {
+            out.push(f("lmove-self-ttl", format!("{} of a list onto itself changed its TTL from {:?} to {:?}", c.name(), pttl_before(a), pttl_after(a)))); }
+        _ => {}
+    }
+    out
 }
